@@ -4,3 +4,4 @@ import PetlProofs.Props.C04
 import PetlProofs.Props.C05
 import PetlProofs.Props.C06
 import PetlProofs.Props.C07
+import PetlProofs.Props.C08
